@@ -1960,4 +1960,9 @@ theorem C05_nested_load_owned_example :
    not_settled_of_miss (x := runH 10 [(lwEnv, .api (.load ⟨0, "o"⟩)), (lwEnv, .hotReload)] ({}, {})) (k := ⟨0, "o"⟩)
      (by decide)⟩
 
+/-- Value-level facts of the `hot_reload` handshake that no effect skeleton shows: a caller waits for exactly its own token, the
+reloader publishes only into an empty slot, tokens are distinct, `notify_all` wakes every sleeper; and a request takes in the events
+that were sent before it (the loop is bounded by the length of the EVENT channel). -/
+theorem C05_handshake_values : AmVerif.Gen.answersHandshakeExact = true ∧ AmVerif.Gen.requestTakesPendingEvents = true := by decide
+
 end AmVerif.Props.C05
